@@ -12,7 +12,8 @@ From SV Require Import Base.Base IR.State IR.NS IR.Ops Hier.Paths Hier.Trace
   Proofs.QueryGlob Proofs.QueryRegex Proofs.QueryFilterA Proofs.QueryFilterB Proofs.QueryFilter
   Proofs.NsInv Proofs.QueryEnumBase Proofs.QueryEnumInst Proofs.QueryEnumPorts Proofs.QueryEnumNetl
   Proofs.QueryEnumPins Proofs.QueryEnumDefs Proofs.QueryEnumLibs Proofs.QueryEnumCables Proofs.QueryEnumFull Proofs.QueryEnumEx
-  Proofs.QueryEnumTerm Proofs.QueryEnumWires Proofs.QueryEnumWiresSpec.
+  Proofs.QueryEnumTerm Proofs.QueryEnumTerm2 Proofs.QueryEnumWires Proofs.QueryEnumWiresSpec Proofs.QueryEnumWiresAll
+  Proofs.QueryEnumCablesAll Proofs.QueryEnumAllFull.
 Import ListNotations.
 Local Open Scope string_scope.
 Local Open Scope list_scope.
@@ -179,6 +180,24 @@ Example C13_hier_example :
   run_hier true false (fun e => match e with 0 => s2l "u0" | 1 => s2l "u0/c" | _ => s2l "u1" end)
            [0; 1; 2] [2] [s2l "u0"; s2l "u*"] = [0; 1].
 Proof. exact x_hier. Qed.
+
+(* the filter law of the five hierarchical queries, for every kind of root and every selection (since
+   the repair of finding C13-K6 nothing is yielded before the patterns are looked at): the result for
+   a pattern = the unfiltered result (refs, the references the function finds; their enumeration is
+   the hier engine's) restricted to the references whose hierarchical name matches; no duplicates.
+   Tied on every run: the stage-level request "H" evaluates run_hier on the implementation's own
+   unfiltered result and compares with the implementation's filtered result, for roots of every kind. *)
+Theorem C13_hier_filters_unfiltered : forall ic ir hname refs pats, NoDup refs ->
+  NoDup (run_hier ic ir hname refs [] pats) /\
+  forall e, In e (run_hier ic ir hname refs [] pats) <->
+            In e (run_hier true false hname refs [] star_pat) /\ existsb (fun p => matches_b ic ir p (hname e)) pats = true.
+Proof. exact hier_filters_unfiltered. Qed.
+Print Assumptions C13_hier_filters_unfiltered.
+
+Theorem C13_hier_unfiltered : forall hname refs, NoDup refs ->
+  forall e, In e (run_hier true false hname refs [] star_pat) <-> In e refs.
+Proof. exact hier_unfiltered. Qed.
+Print Assumptions C13_hier_unfiltered.
 
 (* ============================================================================================ *)
 (* The whole query functions: candidate enumeration per kind of root object (Query/Enum.v) against
@@ -364,11 +383,9 @@ Proof. exact ex_definitions_netlist. Qed.
 
 (* ---- get_libraries ---- *)
 
-(* every root, selection and recursive setting except: an instance (or an outer pin / reference
-   standing for one), OUTSIDE, recursive *)
+(* every root, selection and recursive setting *)
 Theorem C13_get_libraries_candidates : forall s, QWF s -> forall rec inside fuel root ps os,
   cands_libraries s fuel [root] rec inside = WOk (ps, os) ->
-  ~ (rec = true /\ inside = false /\ exists x, item_owner s root x /\ kind_of s x = Some KInstance) ->
   (forall e, (exists p, In p ps /\ In e (kids s RLibs p)) <-> reachA_libraries s root e) /\
   (forall e, In e os <-> reachB_libraries s rec inside root e) /\ NoDup os.
 Proof. exact cands_libraries_spec. Qed.
@@ -376,7 +393,6 @@ Print Assumptions C13_get_libraries_candidates.
 
 Theorem C13_get_libraries : forall s, QWF s -> forall o fuel root rec inside pats res,
   LookOK s (q_reg o) (q_key o) RLibs -> ~ In [] pats ->
-  ~ (rec = true /\ inside = false /\ exists x, item_owner s root x /\ kind_of s x = Some KInstance) ->
   query_libraries s o fuel [root] rec inside pats = WOk res ->
   forall e, In e res <->
     (reachA_libraries s root e \/ reachB_libraries s rec inside root e) /\
@@ -384,25 +400,31 @@ Theorem C13_get_libraries : forall s, QWF s -> forall o fuel root rec inside pat
 Proof. exact query_libraries_spec. Qed.
 Print Assumptions C13_get_libraries.
 
-(* the excluded case: recursive is ignored, only the library of the enclosing definition is a candidate *)
+(* the case in which recursive used to be ignored (repaired in the code, the model follows), on its
+   own: the library of the enclosing definition and, recursive, of every definition above it *)
 Theorem C13_get_libraries_instance_outside : forall s, QWF s -> forall o fuel root x rec pats res,
   LookOK s (q_reg o) (q_key o) RLibs -> ~ In [] pats ->
   item_owner s root x -> kind_of s x = Some KInstance ->
   query_libraries s o fuel [root] rec false pats = WOk res ->
   forall e, In e res <->
-    (exists p, par s RChildren x = Some p /\ par s RDefs p = Some e) /\
+    (exists p d', par s RChildren x = Some p /\ star (used_by s) rec p d' /\ par s RDefs d' = Some e) /\
     (sel_match (q_case o) (q_re o) (key_of s (q_key o)) pats e = true /\ q_cb o e = true).
 Proof. exact query_libraries_instance_outside. Qed.
 Print Assumptions C13_get_libraries_instance_outside.
 
-(* the statement without the exclusion is refuted by the faithful model: get_libraries(instance,
-   selection=OUTSIDE, recursive=True) misses the libraries above the enclosing definition
-   ("object_collection += parent" iterates the keys of the definition's dictionary); witness replayed
-   on the implementation on every run *)
+(* the statement without any exclusion, as one proposition. It was refuted by the faithful model
+   (C13_get_libraries_refuted: get_libraries(instance, selection=OUTSIDE, recursive=True) missed the
+   libraries above the enclosing definition, "object_collection += parent" iterated the keys of the
+   definition's dictionary); repaired in the code, the former witness is the regression Example below
+   and is replayed on the implementation on every run *)
 Definition C13_get_libraries_full : Prop := libraries_full.
-Theorem C13_get_libraries_refuted : ~ C13_get_libraries_full.
-Proof. exact libraries_full_refuted. Qed.
-Print Assumptions C13_get_libraries_refuted.
+Theorem C13_get_libraries_full_holds : C13_get_libraries_full.
+Proof. exact libraries_full_holds. Qed.
+Print Assumptions C13_get_libraries_full_holds.
+
+Example C13_get_libraries_instance_outside_recursive_example :
+  query_libraries ex (opt_name true) 100 [IE 10] true false [s2l "*"] = WOk [12; 1].
+Proof. exact ex_libraries_above. Qed.
 
 Theorem C13_get_libraries_NoDup : forall s o fuel roots rec inside pats res,
   query_libraries s o fuel roots rec inside pats = WOk res -> NoDup res.
@@ -433,8 +455,8 @@ Print Assumptions C13_get_libraries_fast_eq_scan.
 
 Example C13_get_libraries_example :
   query_libraries ex (opt_name true) 100 [IE 2] true false [s2l "*"] = WOk [12; 1] /\
-  query_libraries ex (opt_name true) 100 [IE 10] true false [s2l "*"] = WOk [1].
-Proof. split; [exact ex_libraries_definition_outside|exact ex_libraries_missing]. Qed.
+  query_libraries ex (opt_name true) 100 [IE 10] true false [s2l "*"] = WOk [12; 1].
+Proof. split; [exact ex_libraries_definition_outside|exact ex_libraries_above]. Qed.
 
 (* ---- get_ports: the whole property, every root ---- *)
 Theorem C13_get_ports_candidates : forall s, QWF s -> forall fuel root ps os,
@@ -505,7 +527,7 @@ Print Assumptions C13_get_pins.
 Example C13_get_pins_example : query_pins ex (fun _ => true) 100 [IE 9] false = WOk [POut 10 4; POut 14 7].
 Proof. exact ex_pins_wire_outside. Qed.
 
-(* ---- get_cables: selections INSIDE, OUTSIDE, BOTH - every kind of root, recursive or not ---- *)
+(* ---- get_cables: selections INSIDE, OUTSIDE, BOTH - every kind of root, recursive or not (ALL: below) ---- *)
 Theorem C13_get_cables_candidates : forall s, QWF s -> forall rec x fuel root ps os,
   sel_all x = false -> cands_cables s fuel [root] rec x = WOk (ps, os) ->
   (forall e, (exists p, In p ps /\ In e (kids s RCables p)) <-> reachA_cables s x root e) /\
@@ -522,6 +544,46 @@ Theorem C13_get_cables : forall s, QWF s -> forall o fuel root rec x pats res,
     (sel_match (q_case o) (q_re o) (key_of s (q_key o)) pats e = true /\ q_cb o e = true).
 Proof. exact query_cables_spec. Qed.
 Print Assumptions C13_get_cables.
+
+(* ---- get_cables, selection ALL, every kind of root, recursive or not: the walk across hierarchy
+   boundaries. Specification (Proofs/QueryEnumCablesAll.v; declarative, no loop):
+     lead_defs s root d     the definitions the root stands for (their cables: first stage);
+     cables_all s root c    c is the cable of a wire in reach_wire_all s root (the closure under wire_adj -
+                            a wire on either side, at any level, of a pin of a searched wire - from the
+                            wires at the pins the root leads to, lead_pin), or a cable of the definition
+                            instantiated by an instance the root leads to (lead_insts). ---- *)
+Theorem C13_get_cables_all_candidates : forall s, QWF s -> forall rec fuel root ps os,
+  cands_cables s fuel [root] rec SAll = WOk (ps, os) ->
+  (forall d, In d ps <-> lead_defs s root d) /\ NoDup os /\ forall c, In c os <-> cables_all s root c.
+Proof. exact cands_cables_all_candidates. Qed.
+Print Assumptions C13_get_cables_all_candidates.
+
+Theorem C13_get_cables_all : forall s, QWF s -> forall o fuel root rec pats res,
+  LookOK s (q_reg o) (q_key o) RCables -> ~ In [] pats ->
+  query_cables s o fuel [root] rec SAll pats = WOk res ->
+  NoDup res /\
+  forall e, In e res <->
+    ((exists d, lead_defs s root d /\ par s RCables e = Some d) \/ cables_all s root e) /\
+    (sel_match (q_case o) (q_re o) (key_of s (q_key o)) pats e = true /\ q_cb o e = true).
+Proof. exact query_cables_all_spec. Qed.
+Print Assumptions C13_get_cables_all.
+
+(* the wires searched = the final mark set of the loop = the closure *)
+Theorem C13_get_cables_all_searched_wires : forall s, QWF s -> forall rec fuel root st',
+  wl (acts_cables s rec SAll) (bad_cables s SAll) fuel [root] (mkW [] []) = WOk st' ->
+  forall w, In w (w_marks st') <-> reach_wire_all s root w.
+Proof. exact searched_wires_all_final. Qed.
+Print Assumptions C13_get_cables_all_searched_wires.
+
+Theorem C13_reach_wire_all_closure : forall s root w,
+  reach_wire_all s root w <-> exists p, lead_pin s root p /\ closure_of s [p] w.
+Proof. exact reach_wire_all_closure. Qed.
+Print Assumptions C13_reach_wire_all_closure.
+
+Example C13_get_cables_all_example :
+  cands_cables exa 100 [IE 21] false SBoth = WOk ([], [17; 19]) /\
+  cands_cables exa 100 [IE 21] false SAll = WOk ([], [17; 19; 8]).
+Proof. split; [exact exa_cables_both|exact exa_cables_all]. Qed.
 
 (* ---- get_cables: the clauses that do not depend on the enumeration, for any collection of roots,
         every selection (INSIDE, OUTSIDE, BOTH, ALL) and recursive setting ---- *)
@@ -565,12 +627,58 @@ Theorem C13_get_wires_callback : forall s cb fuel roots rec x res,
 Proof. exact query_wires_callback. Qed.
 Print Assumptions C13_get_wires_callback.
 
-(* selections INSIDE, OUTSIDE, BOTH, every kind of root: exactly the wires the specification names *)
+(* selections INSIDE, OUTSIDE, BOTH, every kind of root: exactly the wires the specification names
+   (selection ALL: C13_get_wires_all below) *)
 Theorem C13_get_wires : forall s, QWF s -> forall rec cb fuel root x res,
   sel_all x = false -> query_wires s cb fuel [root] rec x = WOk res ->
   NoDup res /\ forall w, In w res <-> reach_wires s rec x root w /\ cb w = true.
 Proof. exact query_wires_spec. Qed.
 Print Assumptions C13_get_wires.
+
+(* selection ALL, every kind of root: the walk across hierarchy boundaries is a closure.
+   reach_wires_all (Proofs/QueryEnumWiresAll.v; declarative, no loop): the wires the first loop names
+   for the root (all_item .. (WY w): INSIDE part) or reachable from a pin it collects (all_item .. (WP q))
+   through wire_adj steps (w' on either side, at any hierarchy level, of a pin of w:
+   wire_adj s w w' <-> exists q, pin_wire s q = Some w /\ pin_wires s SAll q w', C13_wire_adj_spec)
+   that stay outside the first loop's wires (those are in the result anyway and are not searched). *)
+Theorem C13_get_wires_all : forall s, QWF s -> forall rec cb fuel root res,
+  query_wires s cb fuel [root] rec SAll = WOk res ->
+  NoDup res /\ forall w, In w res <-> reach_wires_all s root w /\ cb w = true.
+Proof. exact query_wires_all_spec. Qed.
+Print Assumptions C13_get_wires_all.
+
+Theorem C13_wire_adj_spec : forall s, QWF s -> forall w w',
+  wire_adj s w w' <-> exists q, pin_wire s q = Some w /\ pin_wires s SAll q w'.
+Proof. exact wire_adj_spec. Qed.
+Print Assumptions C13_wire_adj_spec.
+
+(* the second loop on its own, started from pins with nothing yielded yet: exactly the reflexive-
+   transitive closure of wire_adj from the wires at those pins, no duplicates (no heap hypothesis) *)
+Theorem C13_get_wires_all_closure : forall s fuel pins res,
+  rounds s SAll fuel pins [] [] = WOk res ->
+  NoDup res /\ forall w, In w res <-> closure_of s pins w.
+Proof. exact rounds_all_closure. Qed.
+Print Assumptions C13_get_wires_all_closure.
+
+(* for any collection of roots: nothing outside the closure is returned *)
+Theorem C13_get_wires_all_sound : forall s cb fuel roots rec l res,
+  wl_run (acts_wires s rec SAll) (bad_wires s SAll) fuel roots = WOk l ->
+  query_wires s cb fuel roots rec SAll = WOk res ->
+  forall w, In w res -> cb w = true /\ (In w (yielded l) \/ closure_of s (searched l) w).
+Proof. exact query_wires_all_sound. Qed.
+Print Assumptions C13_get_wires_all_sound.
+
+(* under ALL the setting of recursive does not change the result (as a set) *)
+Theorem C13_get_wires_all_recursive_irrelevant : forall s, QWF s -> forall cb f1 f2 rec1 rec2 root r1 r2,
+  query_wires s cb f1 [root] rec1 SAll = WOk r1 -> query_wires s cb f2 [root] rec2 SAll = WOk r2 ->
+  forall w, In w r1 <-> In w r2.
+Proof. exact query_wires_all_rec. Qed.
+Print Assumptions C13_get_wires_all_recursive_irrelevant.
+
+Example C13_get_wires_all_example :
+  query_wires exa (fun _ => true) 100 [IE 9] false SBoth = WOk [9; 20; 18] /\
+  query_wires exa (fun _ => true) 100 [IE 9] false SAll = WOk [9; 20; 18; 21].
+Proof. split; [exact exa_wires_both|exact exa_wires_all]. Qed.
 
 Example C13_get_wires_example : query_wires ex (fun _ => true) 100 [IE 16] true SInside = WOk [9].
 Proof. vm_compute. reflexivity. Qed.
@@ -606,6 +714,26 @@ Theorem C13_get_definitions_terminates : forall s, QWF s -> acyclic s -> forall 
   exists fuel, cands_definitions s fuel roots rec inside <> WFuel.
 Proof. exact definitions_terminates. Qed.
 Print Assumptions C13_get_definitions_terminates.
+
+(* the walks that keep visited sets (get_libraries: the set of libraries drives the recursive walk from a
+   library; get_cables: searched_wires; get_wires: in_yield of the second loop): the marks range over the
+   allocated identifiers, every guarded append happens at most once per mark, the unguarded appends go
+   down / up the acyclic hierarchy - fuel = a finite-universe measure on the unmarked identifiers, then
+   Acc. Every selection (ALL included) and recursive setting, any collection of roots. *)
+Theorem C13_get_libraries_terminates : forall s, QWF s -> acyclic s -> forall rec inside roots,
+  exists fuel, cands_libraries s fuel roots rec inside <> WFuel.
+Proof. exact libraries_terminates. Qed.
+Print Assumptions C13_get_libraries_terminates.
+
+Theorem C13_get_cables_terminates : forall s, QWF s -> acyclic s -> forall rec x roots,
+  exists fuel, cands_cables s fuel roots rec x <> WFuel.
+Proof. exact cables_terminates. Qed.
+Print Assumptions C13_get_cables_terminates.
+
+Theorem C13_get_wires_terminates : forall s, QWF s -> acyclic s -> forall x cb rec roots,
+  exists fuel, query_wires s cb fuel roots rec x <> WFuel.
+Proof. exact wires_terminates. Qed.
+Print Assumptions C13_get_wires_terminates.
 
 Example C13_termination_hypotheses_satisfiable : QWF ex /\ acyclic ex.
 Proof. split; [exact ex_qwf|exact ex_acyclic]. Qed.
